@@ -1355,7 +1355,7 @@ func (w *c10World) report(c *lib.Ctx, seen map[string]bool, family string, sweep
 	}
 	seen[sig] = true
 	min, midx := h, idx
-	if h.ops[idx].kind == 'c' && len(seen) <= 25 { // only the first 25 violations get a replay file
+	if h.ops[idx].kind == 'c' && len(c.Violations) < 25 && len(seen) <= 40 { // only the first 25 violations get a replay file
 		min, midx = w.shrink(c, h, idx)
 	}
 	impl, model := w.check(c, min)
